@@ -1,6 +1,7 @@
 import Proofs.Lemmas.RegConc
 import Proofs.Lemmas.CpmConc
 import Proofs.Lemmas.Cpm
+import Proofs.Lemmas.Memo
 import Generated.C10VmLocks
 import Generated.C10PathLocks
 /-!
@@ -23,6 +24,12 @@ Property theorems only.
   (also through helpers such as `findNamespaceNode`) with the half of the manager's
   mutex held there, every call made while it is held, and any other mutex-carrying
   struct or variable of the resolution-path packages the translator does not know.
+
+* `Model.Memo` — a lookup that keeps DERIVED state next to the registry (a negative cache consulted without
+  the lock, invalidated by every registration): linearizable when the miss is recorded inside the read
+  section that observed it, not when it is recorded after the section has been left; the discipline is
+  read off `Generated.C10VmLocks.auxFacts` (every access of state the translator has no table for, by
+  a method on the resolution path).
 
 Trusted, not proved: `sync.RWMutex` behaves as `Model.RW.enter/leave`; Go's memory
 model (accesses that never overlap conflictingly behave atomically).  The race
@@ -316,6 +323,114 @@ theorem C10_linearizable_generated (progs : Tid → List Op)
   obtain ⟨op, _, rfl⟩ := List.mem_map.mp hs
   exact secOf_ok generatedLock hd op
 
+/-! ## Lookups that keep derived state: a memo of lookup answers next to the registry
+
+`C10_linearizable` covers calls that are ONE locked section over the guarded maps.  A lookup that
+remembers its answer in state of its own (a `sync.Map` of known misses, consulted without the lock and
+cleared by `AddClass`) is several atomic steps: `Load` · read section · `Store`.  `Model.Memo` has
+exactly these steps; `Disc` says whether there is a memo and where the `Store` happens. -/
+
+/-- **Linearizability with a lookup memo.** Under a discipline that is `ok` (no memo, or the miss is
+recorded inside the read section that observed it), for any number of goroutines issuing arbitrary
+sequences of `add` / `get` and every schedule: the log — every call at one of its own steps, i.e.
+between its invocation and its response — is an interleaving of the programs; read as a sequential
+history it yields exactly the registry and exactly the logged results under the sequential
+specification `specStep`; and every goroutine has received exactly the results logged for it. -/
+theorem C10_memo_linearizable (d : Model.Memo.Disc) (hd : d.ok = true) (progs : Tid → List Model.Memo.Op)
+    (sched : List Tid) :
+    let s := Model.Memo.run d (Model.Memo.init progs) sched
+    (∀ t, (Model.Memo.logOf s.log t).map (·.1) ++ (s.thr t).pc.pending ++ (s.thr t).prog = progs t) ∧
+    Model.Memo.specRun [] (s.log.map (·.2.1)) = (s.reg, s.log.map (·.2.2)) ∧
+    (∀ t, (s.thr t).out = (Model.Memo.logOf s.log t).map (·.2)) := by
+  intro s
+  have hi := Proofs.Memo.inv_run d hd progs _ sched (Proofs.Memo.inv_init progs)
+  exact ⟨hi.order, hi.lin, hi.outs⟩
+
+/-- the statement of visibility for one discipline: once `add x` has reported success, every `get x`
+that takes effect afterwards — in particular every lookup invoked afterwards — hits, whatever the
+other goroutines do and however long the history goes on -/
+def MemoVisible (d : Model.Memo.Disc) : Prop :=
+  ∀ (progs : Tid → List Model.Memo.Op) (s₁ s₂ : List Tid) (t : Tid) (x : Model.Memo.Name),
+    (t, Model.Memo.Op.add x, Model.Memo.Res.ok) ∈ (Model.Memo.run d (Model.Memo.init progs) s₁).log →
+    ∃ ext, (Model.Memo.run d (Model.Memo.init progs) (s₁ ++ s₂)).log =
+        (Model.Memo.run d (Model.Memo.init progs) s₁).log ++ ext ∧
+      ∀ e ∈ ext, e.2.1 = .get x → e.2.2 = .hit
+
+/-- **A successful registration is visible to all later lookups — also through the memo.**
+Full statement: `∀ d, MemoVisible d` (FALSE, see the counterexample); this is the `_partial` form with
+the hypothesis that excludes the defect: the discipline is `ok`. -/
+theorem C10_memo_registered_visible (d : Model.Memo.Disc) (hd : d.ok = true) : MemoVisible d := by
+  intro progs s₁ s₂ t x hadd
+  have hi := Proofs.Memo.inv_run d hd progs _ s₁ (Proofs.Memo.inv_init progs)
+  rw [Proofs.Memo.run_append]
+  exact Proofs.Memo.visible_run d hd progs _ s₂ hi x (hi.added t x hadd)
+
+/-- the discipline of a lookup that records its miss after leaving the read section -/
+def storeOutside : Model.Memo.Disc := ⟨true, false⟩
+
+/-- goroutine 0 registers name 7, goroutine 1 looks it up twice -/
+def staleProgs : Tid → List Model.Memo.Op :=
+  fun t => if t = 0 then [.add 7] else if t = 1 then [.get 7, .get 7] else []
+
+/-- **Negation witness: the discipline is necessary.** With the `Store` outside the section, under the
+schedule `Load₁ · scan₁ (miss) · add₀ (ok, Clear) · Store₁`: goroutine 0's `add 7` has reported success
+and goroutine 1 has not yet invoked its second lookup; that lookup — invoked after the registration
+returned — answers `miss`, and so does every later one.  Every step is atomic and properly locked
+(no data race, nothing for the race detector).  The harness's overlap streams drive exactly this
+window on the real VM (a registrant and first-time probers of one fresh name released together, then
+a lookup after the join). -/
+theorem C10_memo_stale_counterexample : ¬ (∀ d, MemoVisible d) := by
+  intro h
+  obtain ⟨ext, hlog, hhit⟩ := h storeOutside staleProgs [1, 1, 0, 1] [1] 0 7 (by decide)
+  have hext : ext = [(1, .get 7, .miss)] := by
+    have h2 : (Model.Memo.run storeOutside (Model.Memo.init staleProgs) ([1, 1, 0, 1] ++ [1])).log =
+        (Model.Memo.run storeOutside (Model.Memo.init staleProgs) [1, 1, 0, 1]).log ++ [(1, .get 7, .miss)] := by
+      decide
+    exact (List.append_cancel_left (hlog.symm.trans h2)).symm ▸ rfl
+  have := hhit (1, .get 7, .miss) (by rw [hext]; simp) rfl
+  cases this
+
+/-- **Obligation (regenerated every run).** No method on the resolution path of `runtime/vm.go` or
+`parser/class_path_manager.go` touches AUXILIARY state — a field of `VM` / the manager that is not in the
+translator's tables, or a package-level variable — outside the discipline: plain state obeys the lock
+like a guarded map; a self-synchronised container (`sync.Map`, `atomic.*`) may be read anywhere but is
+updated only inside a critical section that also accesses the registry.  (A `classMiss sync.Map` stored
+into after `RUnlock` fails here with `findClassCaseInsensitive:classMiss:memo-updated-outside-every-critical-section`.) -/
+theorem C10_vm_aux_disciplined :
+    Model.Memo.auxViolations Generated.C10VmLocks.auxFacts = [] ∧
+    Model.Memo.auxViolations Generated.C10PathLocks.auxFacts = [] := by
+  decide
+
+/-- facts that pass the obligation describe a discipline that is `ok` -/
+theorem memoDisc_ok_of_disciplined (aux : List Model.Memo.AuxFact) (h : Model.Memo.auxViolations aux = []) :
+    (Model.Memo.memoDiscOf aux).ok = true := by
+  have hb : ∀ f ∈ aux, f.bad = false := by
+    intro f hf
+    simp only [Model.Memo.auxViolations, List.map_eq_nil_iff, List.filter_eq_nil_iff] at h
+    simpa using h f hf
+  have hall : (Model.Memo.memoDiscOf aux).storeInside = true := by
+    simp only [Model.Memo.memoDiscOf, List.all_eq_true]
+    intro f hf
+    have := hb f hf
+    simp only [Model.Memo.AuxFact.bad] at this
+    cases hs : f.sync <;> cases hk : f.kind <;> cases hh : f.held <;> cases hw : f.withReg <;> simp_all
+  simp [Model.Memo.Disc.ok, hall]
+
+/-- the discipline of the current source, read off the regenerated facts -/
+def generatedMemoDisc : Model.Memo.Disc := Model.Memo.memoDiscOf Generated.C10VmLocks.auxFacts
+
+/-- `C10_memo_linearizable` and `C10_memo_registered_visible` for the discipline regenerated from the
+current source. -/
+theorem C10_memo_linearizable_generated (progs : Tid → List Model.Memo.Op) (sched : List Tid) :
+    let s := Model.Memo.run generatedMemoDisc (Model.Memo.init progs) sched
+    Model.Memo.specRun [] (s.log.map (·.2.1)) = (s.reg, s.log.map (·.2.2)) ∧
+    (∀ t, (s.thr t).out = (Model.Memo.logOf s.log t).map (·.2)) ∧
+    MemoVisible generatedMemoDisc := by
+  intro s
+  have hd := memoDisc_ok_of_disciplined _ C10_vm_aux_disciplined.1
+  obtain ⟨_, h2, h3⟩ := C10_memo_linearizable generatedMemoDisc hd progs sched
+  exact ⟨h2, h3, C10_memo_registered_visible generatedMemoDisc hd⟩
+
 /-! ## Calls made of several sections: the autoload path (known finding)
 
 Full statement (FALSE on the pinned tree, with or without the lock fix):
@@ -568,5 +683,23 @@ example : Proofs.Cpm.WF Model.Cpm.init ∧ demoDisk.exist "/r2/A" = true ∧
     (Model.Cpm.find demoDisk (Model.Cpm.runOps demoDisk (Model.Cpm.addNamespace demoDisk Model.Cpm.init ["App", "A"] "/r2/A") [])
       ["App", "A"] "F" none).2 = some "/r2/A/F.php" := by
   refine ⟨Proofs.Cpm.wf_init, by decide, by decide⟩
+
+/-- `C10_memo_linearizable` is not vacuous: the store-inside discipline is `ok`, and under the schedule of the
+counterexample it answers `miss` (before the registration) and then `hit`; the facts of a lookup that stores
+after `RUnlock` describe `storeOutside`, are rejected by the obligation, and give `miss`, `miss` -/
+example : (⟨true, true⟩ : Model.Memo.Disc).ok = true ∧
+    ((Model.Memo.run ⟨true, true⟩ (Model.Memo.init staleProgs) [1, 1, 0, 1, 1]).thr 1).out = [.miss, .hit] ∧
+    ((Model.Memo.run storeOutside (Model.Memo.init staleProgs) [1, 1, 0, 1, 1]).thr 1).out = [.miss, .miss] ∧
+    ((Model.Memo.run storeOutside (Model.Memo.init staleProgs) [1, 1, 0, 1, 1]).thr 0).out = [.ok] ∧
+    Model.Memo.memoDiscOf [⟨"AddClass", "classMiss", .wr, .W, true, true⟩,
+      ⟨"findClassCaseInsensitive", "classMiss", .rd, .none, true, false⟩,
+      ⟨"findClassCaseInsensitive", "classMiss", .wr, .none, true, false⟩] = storeOutside ∧
+    Model.Memo.auxViolations [⟨"AddClass", "classMiss", .wr, .W, true, true⟩,
+      ⟨"findClassCaseInsensitive", "classMiss", .rd, .none, true, false⟩,
+      ⟨"findClassCaseInsensitive", "classMiss", .wr, .none, true, false⟩] =
+      ["findClassCaseInsensitive:classMiss:memo-updated-outside-every-critical-section"] ∧
+    Model.Memo.auxViolations [⟨"AddClass", "classMiss", .wr, .W, true, true⟩,
+      ⟨"scanClass", "classMiss", .wr, .R, true, true⟩,
+      ⟨"findClassCaseInsensitive", "classMiss", .rd, .none, true, false⟩] = [] := by decide
 
 end C10
